@@ -13,7 +13,11 @@ import argparse, glob, hashlib, json, os, shutil, signal, subprocess, sys, time
 
 ROOT = os.path.dirname(os.path.abspath(__file__))
 REPO = os.environ.get("VERIF_REPO", "/repo")
-BUILD = os.path.join(ROOT, ".build")
+# Runs against an overlay (seeded-change self-validation) keep their binaries and their evidence apart from the real ones:
+# evidence/<id>.json is only ever written by a run against /repo itself.
+_OV = os.environ.get("VERIF_OVERLAY")
+BUILD = os.path.join(ROOT, ".build") if not _OV else os.path.join(ROOT, ".build", "ov-" + hashlib.sha256(_OV.encode()).hexdigest()[:10])
+EVDIR = os.environ.get("VERIF_EVIDENCE_DIR") or (os.path.join(ROOT, "evidence") if not _OV else os.path.join(ROOT, ".run", "ov-evidence"))
 TOOLCHAIN = "/root/go/pkg/mod/golang.org/toolchain@v0.0.1-go1.25.0.linux-amd64/bin"
 
 sys.path.insert(0, ROOT)
@@ -363,8 +367,8 @@ def cmd_run(pid, tier, keep=False):
     }
     if spec.get("exhaustive_note"):
         ev["coverage"]["exhaustive_part"] = spec["exhaustive_note"]
-    os.makedirs(os.path.join(ROOT, "evidence"), exist_ok=True)
-    with open(os.path.join(ROOT, "evidence", pid + ".json"), "w") as f:
+    os.makedirs(EVDIR, exist_ok=True)
+    with open(os.path.join(EVDIR, pid + ".json"), "w") as f:
         json.dump(ev, f, indent=1, sort_keys=True)
         f.write("\n")
 
